@@ -68,8 +68,12 @@ def r1_generation(ctx):
             interp.mstate["wlen"] = len(items)
             if not items or any(not isinstance(x, float) for x in items):
                 return TOP
+            if any(x != x for x in items):
+                return err(Sym("InvalidWeight"))
             if any(x < 0 for x in items) or not any(x > 0 for x in items):
                 return err(Sym("AllWeightsZero"))
+            if any(x == float("inf") for x in items) or sum(items) == float("inf"):
+                return "DIVERGE"      # rand builds `Uniform::new(0, total)`: a non-finite total panics
             return ok(Sym("dist"))
 
         def sample(interp, env, f, args):
@@ -109,7 +113,7 @@ def r1_generation(ctx):
                 if isinstance(x, Agg) and not (isinstance(x.fields[1], Agg) and x.fields[1].variant == "None"):
                     bad.append(ctxs + ("installs an evaluated tour",))
         for w in weights_seen:
-            if any((not isinstance(x, float)) or not (x > 0.0) for x in w):
+            if any((not isinstance(x, float)) or not (x > 0.0) or x == float("inf") for x in w):
                 bad.append((dim, ants, pher, dist, pick, "hands roulette weights %s to the sampler (every weight must be strictly positive, else sampling fails when all candidates vanish)" % (w,)))
     ctx.check(not bad, "C19.R1", fn.key, "valid-tours", "%s cities, %s ants, %s pheromones, distance %s, sampler picks the %s candidate: generation %s" % (bad[0] if bad else ("", "", "", "", "", "")), detail="%d scenarios" % n, loc=fn.loc())
     ctx.count("generation_scenarios", n)
@@ -198,8 +202,10 @@ def r2_updates(ctx):
                 if diff and differs(alt):
                     i, j, g, w = diff[0]
                     bad.append(ctxs + ("leaves trail (%d,%d) at %s; evaporate-then-deposit%s gives %s" % (i, j, g, " with clamping to [%s, %s]" % (lo, hi) if kind == "mmas" else "", w),))
+                # (how often and when the matrix is evaporated is decided by the trails it leaves - compared above; an evaporation
+                # written out as a loop over the trails is as good as `*pm *= factor`)
                 ops = p.mstate.get("ops", ())
-                if ops[:1] != ("evaporate",) or ops.count("evaporate") != 1:
+                if ops and (ops[:1] != ("evaporate",) or ops.count("evaporate") != 1):
                     bad.append(ctxs + ("evaporates %d times / not first" % ops.count("evaporate"),))
         ctx.check(not bad, "C19.R2", fn.key, "evaporate-then-deposit" + ("-within-bounds" if kind == "mmas" else ""),
                   "tours %s with lengths %s, evaporation %s, trail scale %s: the update %s" % (bad[0] if bad else ("", "", "", "", "")), detail="%d scenarios" % n, loc=fn.loc())
